@@ -27,7 +27,7 @@ int main(int argc, char **argv) {
         undExh = thorough ? 5 : 4;
         randMin = 4;
         randMax = thorough ? 7 : 6;
-        randomCount = (uint64_t)R.args.geti("random", thorough ? 12000 : 1200);
+        randomCount = (uint64_t)R.args.geti("random", thorough ? 60000 : 1200);
     }
     unsigned bigEvery = (unsigned)R.args.geti("bigevery", prop == "C10" ? 30 : (prop == "C09" ? 45 : 25));
     SpecSpace sd(true, dirExh, randomCount, randMin, randMax, bigEvery), su(false, undExh, randomCount, randMin, randMax, bigEvery);
